@@ -23,13 +23,13 @@ ASSUMPTIONS = ["Redis and RabbitMQ are wire-level fakes (RabbitMQ rule R2: per-m
                "the AMQP fake accepts per-message expirations of any size; a real RabbitMQ server is believed to refuse values above 2^32-1 ms (49.7 days) with a channel error, "
                "so what repid does for longer delays on RabbitMQ is judged here only as far as the fake goes (not verifiable offline)"]
 EVAL_COUNTER = "deliveries_judged"
-REQUIRED = ["deliveries_judged", "due_past", "due_subsecond", "due_seconds", "due_far", "visibility_probes", "multi_scenarios", "peek_scenarios", "peek_returns", "crowd_scenarios", "timezone_offset_runs", "busy_consumer_scenarios", "far_future_probes"]
+REQUIRED = ["deliveries_judged", "due_past", "due_subsecond", "due_seconds", "due_far", "visibility_probes", "multi_scenarios", "peek_scenarios", "peek_returns", "crowd_scenarios", "timezone_offset_runs", "busy_consumer_scenarios", "far_future_probes", "messages_put_back_with_a_new_time"]
 CASE_TIMEOUT = 120
 
 OFFSETS = [-5.0, -0.000001, 0.0004, 0.3, 0.9995, 1.0, 1.5, 5.0, 3600.0, 2592000.0]
 PHASES = [0.0, 0.000001, 0.05, 0.1234, 0.25, 0.45, 0.5, 0.6, 0.75, 0.9, 0.999, 0.9999]
 CMODES = ["before", "after:0.01", "after:0.2", "after:0.7", "after:1.1", "afterT", "atT", "pollT"]
-VIAS = ["api", "job_until", "job_by", "api_rec"]
+VIAS = ["api", "job_until", "job_by", "api_rec", "api_requeue"]
 
 
 def gen_cases(tier, seed):
@@ -41,6 +41,8 @@ def gen_cases(tier, seed):
         # api_rec: a periodic message (period 1 s) whose stored scheduled time lies further ahead than its period (a retry
         # back-off longer than the period): the stored time counts
         combos = [x for x in combos if not (x[3] == "api_rec" and x[0] < 1.5)]
+        # api_requeue: the message is taken by a consumer and put back with its new time (a retry back-off, a reschedule)
+        combos = [x for x in combos if not (x[3] == "api_requeue" and x[0] > 100)]
         n = {"quick": 170, "thorough": len(combos)}[tier]
         if n < len(combos):
             # stratified: every offset and every phase present
@@ -53,6 +55,10 @@ def gen_cases(tier, seed):
         for i in range(0, len(combos), 6):
             cases.append({"type": "single", "kind": kind, "items": combos[i:i + 6], "seed": rnd.randrange(10**6),
                           "latency": None if kind == "mem" else rnd.choice([None, 0.003])})
+        # put back with a sub-second back-off from every position inside the clock second
+        sub = [(o, p, c, "api_requeue") for o in (0.3, 0.6) for p in PHASES for c in (("before", "after:0.01") if tier == "quick" else ("before", "after:0.01", "after:0.2", "pollT"))]
+        for i in range(0, len(sub), 6):
+            cases.append({"type": "single", "kind": kind, "items": sub[i:i + 6], "seed": rnd.randrange(10**6), "latency": None if kind == "mem" else [None, 0.003][(i // 6) % 2]})
         nm = {"quick": 8, "thorough": 80}[tier]
         for i in range(nm):
             k = rnd.randint(2, 6)
@@ -169,6 +175,14 @@ async def single(loop, kind, item, lat, seed, out, stats, fps, samples):
         # position `now` inside the second
         frac = loop.time() % 1.0
         loop.jump((phase - frac) % 1.0 + 1.0)
+        taken = None
+        if via == "api_requeue":
+            await mb.enqueue(key_of(conn, "m1", "t", "q"), "p0", mb.PARAMETERS_CLASS())
+            c0 = mb.get_consumer("q", None, None, MessageCategory.NORMAL)
+            await c0.start()
+            taken = await asyncio.wait_for(c0.consume(), 5.0)
+            frac = loop.time() % 1.0
+            await asyncio.sleep((phase - frac) % 1.0)
         cons = mb.get_consumer("q", None, None, MessageCategory.NORMAL)
         t_cons = None
         if cmode == "before":
@@ -182,6 +196,13 @@ async def single(loop, kind, item, lat, seed, out, stats, fps, samples):
         if via == "api":
             P = mb.PARAMETERS_CLASS
             await mb.enqueue(key_of(conn, "m1", "t", "q"), "p", P(delay=DelayProperties(next_execution_time=T)))
+        elif via == "api_requeue":
+            P = mb.PARAMETERS_CLASS
+            stats["messages_put_back_with_a_new_time"] += 1
+            await mb.requeue(taken[0], "p", P(delay=DelayProperties(next_execution_time=T), retries=P().retries.__class__(max_amount=3, already_tried=1)))
+            await c0.finish()
+            if T <= now:
+                T = now
         elif via == "api_rec":
             P = mb.PARAMETERS_CLASS
             stats["periodic_messages_scheduled_beyond_their_period"] += 1
